@@ -1007,11 +1007,11 @@ class C04(core.Check):
                   "(partial_history_paints, partial_history_keeps_sync); (html_exact) the HTML back-end's "
                   "spans carry exactly the canvas text row by row with at most one one-character span swapped, for every "
                   "canvas and cursor; (visual_colours) the colour of every kind (true, high, basic, default) spelled out; "
-                  "(row_cells_is_threaded) zero-width (combining) characters are covered by all of the above except as the "
-                  "first character of a run - the reference terminal joins them to the character before the cursor.  "
-                  "REFUTED with a machine-checked witness replayed on the implementation (known finding): "
-                  "draw_paints_any_text_full (a run that starts with a combining character on the bottom row loses the "
-                  "mark); C0 control characters stay excluded (reported defect: measured as 0 columns, painted as '?').  Correspondence/oracle only: everything above on the real code (exact token streams, all "
+                  "(row_cells_is_threaded) zero-width (combining) characters and C0 control characters (dropped under UTF-8, '?' "
+                  "under narrow encodings) are covered by all of the above except as the first character of a run - the "
+                  "reference terminal joins a zero-width character to the character before the cursor.  NOT proved, "
+                  "statement kept (draw_paints_any_text_full, formerly refuted, witness kept in the corpus): runs that "
+                  "start with a zero-column character.  Correspondence/oracle only: everything above on the real code (exact token streams, all "
                   "five colour depths, utf-8/ascii/iso8859-1, widgets), partial display with an origin below row 0, and for "
                   "the HTML back-end the escaping, the colour strings and the position of the highlighted cell.")
     level_note = ("Trusted: Coq kernel; the hand-written model (tied by exact correspondence, not proved against Python); "
@@ -1041,8 +1041,8 @@ class C04(core.Check):
     assumptions = [
         "the terminal measures character widths like urwid (str_util.get_char_width); a zero-width character joins the character "
         "before the cursor (the last one written in the pending-wrap state) and is dropped at the start of a line",
-        "canvas rows are exactly maxcol columns wide and runs are non-empty; canvas text has no C0 control characters "
-        "(urwid measures them as zero-width but paints '?': observed, not judged); ascii mode carries only ASCII bytes",
+        "canvas rows are exactly maxcol columns wide and runs are non-empty; runs in the IBMPC charset 'U' carry no C0 control "
+        "characters (they are sent untranslated)",
         "under UTF-8 the canvas carries no charset flags",
         "palette entries are registered before drawing and terminal properties are changed only through set_terminal_properties",
         "partial display: the lines at and below the display origin are blank when the screen starts and the used rows fit on the terminal; "
